@@ -10,7 +10,7 @@ for sid in sorted(os.listdir("seeded")):
     if not os.path.isdir(d): continue
     out = subprocess.run(["./tools/try_seeded.sh", f"{d}/patch.diff", tier], capture_output=True, text=True).stdout
     ex = re.search(r"exit=(\d+)", out)
-    v = re.search(r"violation in run (\d+) of seed (\d+): (\S+) at step (-?\d+) \((\w+)\): (.*)", out)
+    v = re.search(r"violation in run (\d+) of seed (\d+): (\S+) at step (\S+) \((\w+)\): (.*)", out)
     mi = re.search(r"Miri pass: (.*)", out)
     mn = re.search(r"minimised (\d+) -> (\d+) operations .*container (\S+)", out)
     verdict = "caught" if ex and ex.group(1) == "1" else ("missed" if ex and ex.group(1) == "0" else "harness-error")
